@@ -4,7 +4,7 @@ from .. import common, family, mapcase
 
 PROPS_FILES = ['theories/Props/C09.v']
 FINDINGS_FILES = []
-LEVEL = 'proof'
+LEVEL = 'other'
 TRUSTED = ['rdflib parsers (Turtle, N-Triples, RDF/XML) and SPARQL engine, the vocabulary rewrites of _r2rml_to_rml / _rml_legacy_to_rml: outside the Coq model, covered by this differential check only',
            'harness/mapcase.py renderers: the equivalence of the spellings they produce is by construction (one abstract mapping)']
 ASSUMES = ['YARRRML is not rendered by the harness (not covered)']
